@@ -5,12 +5,15 @@ CONSTANTS
   BeamPos = {5}
   Phases <- MC_PhasesQ
   Ratios <- MC_RatiosQ
+  MinPulses = 2
   MaxPulses = 3
   MaxTurns = 12
+  Again = FALSE
   Pick = 0
   Bug = "none"
 INVARIANT TypeOK
 INVARIANT RejectedIffOverlap
+INVARIANT ValidationIgnoresListingOrder
 INVARIANT RefusedIffOutOfPhase
 INVARIANT OpenBeforeClose
 INVARIANT MaximalOpen
